@@ -634,3 +634,87 @@ example :
     C15.eulerMode4 b true .wrap = 0 ∧ C15.eulerMode4 b true .nearest = 0 ∧
     C15.getMode b .mirror (-1) 0 = true ∧ C15.getMode (C15.Bin.ofInts 2 1 [0, 1]) .mirror (-1) 0 = true ∧
     C15.getMode (C15.Bin.ofInts 2 1 [0, 1]) .reflect (-1) 0 = false := by decide
+
+/-! ## Round 4 — `thin`: the `max_iter` argument and the control structure around the passes -/
+
+/-- the loop composes: `n + k` rounds are `k` rounds after `n` rounds (an early exit leaves a stable image) -/
+theorem C15_thinLoop_add (n k : Nat) (b : C15.Bin) (hb : b.WF) :
+    C15.thinLoop (n + k) b = C15.thinLoop k (C15.thinLoop n b) := by
+  have succ : ∀ (m : Nat) (a : C15.Bin), C15.thinLoop (m + 1) a =
+      if (C15.iter a).data == a.data then C15.iter a else C15.thinLoop m (C15.iter a) := fun _ _ => rfl
+  induction n generalizing b with
+  | zero => simp [C15.thinLoop]
+  | succ n ih =>
+    have e : n + 1 + k = (n + k) + 1 := by omega
+    rw [e, succ (n + k) b, succ n b]
+    obtain ⟨hr, hc, hw⟩ := C15.iter_shape b hb
+    by_cases heq : ((C15.iter b).data == b.data) = true
+    · rw [if_pos heq, if_pos heq]
+      have hd : (C15.iter b).data = b.data := by simpa using heq
+      have hib : C15.iter b = b := C15.bin_ext _ _ hr hc hd
+      have hs : C15.Stable (C15.iter b) := by unfold C15.Stable; rw [hib]; exact hd
+      exact (C15.thinLoop_eq_of_stable k _ hw hs).symm
+    · rw [if_neg heq, if_neg heq]
+      exact ih (C15.iter b) hw
+
+/-- **C15 (`thin`, the `max_iter` argument).** `while (any_change && (max_iter < 0 || n++ < max_iter))`: for
+`max_iter ≥ 0` the model runs exactly the loop with fuel `max_iter` — at most `max_iter` rounds of the eight passes, stopping
+early at a fixed point; the internal cap `count + 1` never binds (more fuel than pixels changes nothing). Consequences:
+`max_iter = 0` returns the image unchanged; every `max_iter > count` (and every negative one) gives the full thinning; and
+the result for `max_iter + k` is the result of `k` more rounds on the result for `max_iter`. -/
+theorem C15_thin_max_iter (b : C15.Bin) (hb : b.WF) (m : Nat) :
+    C15.thinCore b (m : Int) = C15.thinLoop m b ∧
+    C15.thinCore b 0 = b ∧
+    (b.count < m → C15.thinCore b (m : Int) = C15.thinCore b (-1)) ∧
+    (∀ k : Nat, C15.thinCore b ((m + k : Nat) : Int) = C15.thinLoop k (C15.thinCore b (m : Int))) := by
+  have full : ∀ n : Nat, b.count + 1 ≤ n → C15.thinLoop n b = C15.thinLoop (b.count + 1) b := by
+    intro n hn
+    obtain ⟨k, rfl⟩ : ∃ k, n = (b.count + 1) + k := ⟨n - (b.count + 1), by omega⟩
+    rw [C15_thinLoop_add _ _ _ hb]
+    exact C15.thinLoop_eq_of_stable k _ (C15.thinLoop_wf _ b hb) (C15.thinLoop_stable _ b hb (by omega))
+  have core : ∀ n : Nat, C15.thinCore b (n : Int) = C15.thinLoop n b := by
+    intro n
+    unfold C15.thinCore
+    have : ¬ ((n : Int) < 0) := by omega
+    simp only [this, if_false, Int.toNat_natCast]
+    rcases Nat.le_total (b.count + 1) n with h | h
+    · rw [Nat.min_eq_left h]; exact (full n h).symm
+    · rw [Nat.min_eq_right h]
+  refine ⟨core m, ?_, ?_, ?_⟩
+  · have := core 0
+    simpa [C15.thinLoop] using this
+  · intro h
+    rw [core m, full m (by omega)]
+    unfold C15.thinCore
+    simp
+  · intro k
+    rw [core (m + k), core m, C15_thinLoop_add _ _ _ hb]
+
+/-- **C15 (`thin`: control structure tied to the current source).** What `thinModel` / `thinCore` / `thinLoop` transliterate,
+re-extracted on every run: `thin.py` — result `zeros_like`, `bbox`, a `(r+2, c+2)` zero frame with the crop pasted at
+`[1:r+1, 1:c+1]`, the native call with `int(max_iter)`, the paste back into `[min0:max0, min1:max1]`; `_thin.cpp: py_thin` —
+`any_change = true; n = 0; while (any_change && ((max_iter < 0) || n++ < max_iter))`, `any_change = false` at the head of a round,
+the `for` over all `Nr_Elements` elements in order with `fast_hitmiss(array, elems[i], buffer)` followed by the clearing loop over
+all `N = PyArray_SIZE(array)` cells (`if (*pb && *pa)`), and the eight `fill_data` calls (`C15_thin_templates_rotations`).
+A changed frame width, slice, loop bound or stop condition breaks this `decide`. -/
+theorem C15_thin_structure_source_tie :
+    Generated.thinPyParams = ["binimg", "max_iter", "=-1"] ∧
+    Generated.thinPyBody =
+      ["res = np.zeros_like(binimg)", "min0, max0, min1, max1 = bbox(binimg)", "r, c = (max0 - min0, max1 - min1)",
+       "image_exp = np.zeros((r + 2, c + 2), bool)", "image_exp[1:r + 1, 1:c + 1] = binimg[min0:max0, min1:max1]",
+       "imagebuf = np.empty((r + 2, c + 2), bool)", "_thin(image_exp, imagebuf, int(max_iter))",
+       "res[min0:max0, min1:max1] = image_exp[1:r + 1, 1:c + 1]", "return res"] ∧
+    Generated.thinLoopInit = ["N = PyArray_SIZE(array)", "any_change = true", "n = 0"] ∧
+    Generated.thinLoopCond = "any_change && ((max_iter < 0) || n++ < max_iter)" ∧
+    Generated.thinLoopSkeleton =
+      ["any_change = false", "for i in [0, Nr_Elements)", "fast_hitmiss(array, elems[i], buffer)", "for j in [0, N)", "if (*pb && *pa)"] ∧
+    Generated.thinElems.length = 8 := by
+  decide
+
+/-! non-vacuity: on a filled 3×3 block in its frame one round changes the image, `max_iter = 0` does not, and two rounds are
+    one round after one round -/
+set_option maxRecDepth 8000 in
+example :
+    let b := C15.Bin.ofInts 5 5 [0,0,0,0,0, 0,1,1,1,0, 0,1,1,1,0, 0,1,1,1,0, 0,0,0,0,0]
+    (C15.thinCore b 0).data = b.data ∧ (C15.thinCore b 1).data ≠ b.data ∧
+    (C15.thinCore b 2).data = (C15.thinLoop 1 (C15.thinCore b 1)).data := by decide
